@@ -72,8 +72,11 @@ harness("h_eval", ["common/netload.cpp", "common/refchess.cpp", "common/vposgen.
         ["texellib"], variants=("rel", "asan", "ssse3", "avx2", "avx512"))
 harness("h_tt", ["common/netload.cpp", "h_tt.cpp"], ["texellib"], variants=("rel", "asan", "tsan"))
 harness("h_tb", ["common/netload.cpp", "common/refchess.cpp", "h_tb.cpp"], ["texellib"])
-harness("h_util", ["common/netload.cpp", "common/refchess.cpp", "common/vposgen.cpp", "h_util.cpp"],
-        ["utillib", "texellib"], ld="-lz3")
+harness("h_csp", ["common/netload.cpp", "h_csp.cpp"], ["utillib", "texellib"], ld="-lz3")
+harness("h_rev", ["common/netload.cpp", "common/refchess.cpp", "common/vposgen.cpp", "h_rev.cpp"], ["utillib", "texellib"])
+harness("h_pg", ["common/netload.cpp", "common/refchess.cpp", "common/vposgen.cpp", "h_pg.cpp"], ["utillib", "texellib"])
+harness("h_pgn", ["common/netload.cpp", "common/refchess.cpp", "common/vposgen.cpp", "h_pgn.cpp"], ["utillib", "texellib"])
+harness("h_bb", ["common/netload.cpp", "common/refchess.cpp", "common/vposgen.cpp", "h_bb.cpp"], ["utillib", "texellib"])
 harness("h_book", ["common/netload.cpp", "common/refchess.cpp", "common/vposgen.cpp", "h_book.cpp"],
         ["texellib"])
 harness("h_game", ["common/netload.cpp", "common/refchess.cpp", "common/vposgen.cpp", "h_game.cpp"],
